@@ -412,6 +412,7 @@ func spellClass(lit string) string {
 
 func runC05(r *Run) {
 	c05EscapyKeys(r)
+	c05OneEvaluatorManyDocuments(r)
 	r.Rule = "documents built so that the kind of absence is known by construction: leaf absent under a map reached through maps/structs/slices/pointers/interfaces (>= 2 parts), absent struct field, absent top-level key, absent intermediate key, index out of range, step into a scalar, alias-bound paths inside quantifiers; x 8 operators + any/all; x {no unknown value, unknown value of each scalar kind, nil, a list, a map}; predicate on the implementation: the documented table / error / exact substitution of the unknown value (compared with the same operator applied to a document holding that value); also compared with the model on the error-focused generic stream; distinct = (absence kind, operator, unknown kind)"
 	type doc struct {
 		name string
@@ -472,6 +473,8 @@ func runC05(r *Run) {
 		{"%s is empty", "T"}, {"%s is not empty", "F"}, {"%s matches `a`", "F"}, {"%s not matches `a`", "T"},
 		{"all %s as x { x == 1 }", "T"}, {"any %s as x { x == 1 }", "F"}, {"all %s as k, v { v == 1 }", "T"}, {"any %s as _, v { v == 1 }", "F"},
 		{`%s == "05"`, "F"}, {`%s != "0x5"`, "T"}, {"%s == 5.0", "F"}, {"%s matches `^5$`", "F"}, {"5 in %s", "F"}, {`%s == "1.50"`, "F"},
+		// literals that separate the widths of an unknown value (round 13): not representable in binary32, outside int8/uint8, negative
+		{"%s == 0.1", "F"}, {"%s != 0.1", "T"}, {"%s == 16777217", "F"}, {"%s != 300", "T"}, {"%s == -1", "F"}, {"0.1 in %s", "F"},
 	}
 	unknowns := []struct {
 		name string
@@ -481,6 +484,8 @@ func runC05(r *Run) {
 		{"none", false, nil}, {"int", true, 1}, {"string", true, "a"}, {"bool", true, true}, {"float", true, 1.5}, {"uint8", true, uint8(1)}, {"nil", true, nil},
 		{"list", true, []int{1, 2}}, {"emptylist", true, []int{}}, {"map", true, map[string]int{"k": 1}}, {"emptystring", true, ""},
 		{"json.Number-int", true, json.Number("5")}, {"json.Number-float", true, json.Number("1.5")}, {"json.Number-bad", true, json.Number("x")}, {"named-int", true, NInt(5)}, {"ptr-int", true, &one}, {"Dur", true, Dur(5)}, {"float32", true, float32(1.5)},
+		{"float32-tenth", true, float32(0.1)}, {"float32-2^24", true, float32(16777216)}, {"float64-tenth", true, 0.1}, {"int8", true, int8(44)}, {"uint8-44", true, uint8(44)},
+		{"int16-min", true, int16(-32768)}, {"int-neg", true, -1}, {"json.Number-tenth", true, json.Number("0.1")}, {"list-float32", true, []float32{0.1}}, {"list-iface-float32", true, []interface{}{float32(0.1), int8(-1)}},
 	}
 	for _, dc := range docs {
 		for _, op := range ops {
@@ -1148,6 +1153,7 @@ func runC08(r *Run) {
 	c08OddTagNames(r)
 	c08HiddenRows(r)
 	c08ZeroArrays(r)
+	c08ContainersOfBlankRows(r)
 	r.Rule = "pairs of data equal on visible fields and different in the contents of `-`-tagged and unexported fields (strings, slices, maps, nested structs; nested in structs, pointers, slices and maps), generated from one visible seed and two hidden seeds; expressions from the generic generator against the first datum plus a family naming hidden fields by Go name, tag name, through containers and quantifiers, under the default and the alternate tag name; predicate on the implementation: identical Evaluate outcomes and identical Filter selections for the pair; a selector naming a hidden field never resolves to its content; a renamed field is reachable only under its tag name; both evaluations also compared with the model; distinct = (expression shape, tag, outcome)"
 	n := 1200
 	if r.Tier == "thorough" {
